@@ -1,0 +1,18 @@
+// Copyright (C) 2024, Ava Labs, Inc. All rights reserved.
+// See the file LICENSE for licensing terms.
+
+//go:build verif
+
+package executor
+
+// VerifYield, when set by a test built with the "verif" tag, is called at the
+// executor's yield points with the name of the point and the id of the task
+// being queued or run. Every yield point is outside mutex-protected regions,
+// so a goroutine paused inside the callback never holds an executor lock.
+var VerifYield func(point string, task int)
+
+func verifYield(point string, task int) {
+	if f := VerifYield; f != nil {
+		f(point, task)
+	}
+}
